@@ -63,6 +63,12 @@ impl InlineCache {
     }
 
     pub(crate) fn set(&self, shape: &Shape, slot: Slot) {
+        #[cfg(boa_verif)]
+        if crate::verif::switch(crate::verif::NO_IC) {
+            return;
+        }
+        #[cfg(boa_verif)]
+        crate::verif::ic_event(&self.name, if self.megamorphic.get() { 'm' } else { 's' });
         if self.megamorphic.get() {
             return;
         }
@@ -87,7 +93,13 @@ impl InlineCache {
     ///
     /// Opportunistically cleans up stale weak shape references during lookup.
     pub(crate) fn get(&self, shape: &Shape) -> Option<(Shape, Slot)> {
+        #[cfg(boa_verif)]
+        if crate::verif::switch(crate::verif::NO_IC) {
+            return None;
+        }
         if self.megamorphic.get() {
+            #[cfg(boa_verif)]
+            crate::verif::ic_event(&self.name, 'M');
             return None;
         }
 
@@ -108,6 +120,8 @@ impl InlineCache {
                 entries.swap_remove(i);
             }
         }
+        #[cfg(boa_verif)]
+        crate::verif::ic_event(&self.name, if result.is_some() { 'h' } else { 'x' });
 
         result
     }
